@@ -693,6 +693,13 @@ impl Property for C20 {
                 }
                 return None;
             }
+            Outcome::Ok if case.family == "invalid" => {
+                // the configuration is invalid by construction
+                return viol(
+                    "C20.exit-fail",
+                    format!("an invalid configuration ({:?}) is accepted: go returns Ok and the executable: {}", case.opts.last(), f.describe()),
+                );
+            }
             Outcome::Ok => {
                 if noisy_routed {
                     ctx.stats.nontrivial = true;
